@@ -97,6 +97,15 @@ pub fn write_rtobject(o: Rc<dyn RTObject>) -> Result<serde_json::Value, StoryErr
     }
 
     if let Some(v) = Value::get_value::<f32>(o.as_ref()) {
+        // JSON has no NaN or infinities (they would be written as `null`, which
+        // does not load): write what the reference engine writes for them.
+        let v = if v.is_nan() {
+            0.0
+        } else if v.is_infinite() {
+            if v > 0.0 { 3.4e38 } else { -3.4e38 }
+        } else {
+            v
+        };
         return Ok(json!(v));
     }
 
